@@ -23,11 +23,8 @@ def takeLines : Nat → Bytes → Bytes
   | _ + 1, [] => []
   | k + 1, b :: r => if b = 10 then b :: takeLines k r else b :: takeLines (k + 1) r
 
-/-- drop one final '\n' -/
-def stripNL (c : Bytes) : Bytes :=
-  match c.reverse with
-  | b :: r => if b = 10 then r.reverse else c
-  | [] => c
+/-- `a` is the whole lines `b`, except that the terminator of the last line may be missing -/
+def eqModFinalNL (a b : Bytes) : Bool := a == b || a ++ [10] == b
 
 def maxEnd (l : List Item) : Nat := l.foldl (fun m i => max m i.endLine) 0
 
@@ -48,7 +45,7 @@ def unitCutOf (chunk : Bool) (ctx : Nat) (u o : MUnit) : Bool :=
    o.items == u.items.take o.items.length &&
    (if chunk then
       o.sym == u.sym.map (·.take o.items.length) &&
-      stripNL o.content == stripNL (expectedContent ctx u o.items)
+      eqModFinalNL o.content (expectedContent ctx u o.items)
     else o.sym == u.sym && o.content == u.content))
 
 /-- `os` = the leading units of `us`, the last one possibly cut -/
@@ -88,10 +85,9 @@ def ctxShortAtEof (ctx : Nat) (u o : MUnit) : Bool :=
   decide (u.firstLine + lineCount u.content < maxEnd u.items + ctx + 1) &&
   (let lo := maxEnd o.items + 1 - u.firstLine
    let hi := maxEnd o.items + ctx + 1 - u.firstLine
-   -- `o.content` is the first `h` whole lines of `u.content` for some `lo ≤ h < hi` (an empty last line may have
-   -- lost its terminator: "a\n" is both one line and two lines the second of which is empty)
+   -- `o.content` is the first `h` whole lines of `u.content` for some `lo ≤ h < hi`
    (List.range hi).any fun h => decide (lo ≤ h) &&
-     (stripNL o.content == stripNL (takeLines h u.content) || o.content == stripNL (takeLines h u.content)))
+     eqModFinalNL o.content (takeLines h u.content))
 
 def anyUnitPair (p : MUnit → MUnit → Bool) (full out : List File) : Bool :=
   (full.zip out).any fun fo => (fo.1.units.zip fo.2.units).any fun uo => p uo.1 uo.2
